@@ -168,6 +168,34 @@ def run(c, facts, tier):
                         elif mm in ("map", "filter_map", "flat_map"):
                             ok = None
                             det += "; mapping function not analysable"
+                if not ok:
+                    # the same thing written as a loop: `for (k, v) in map.iter() { other.insert(v, k) }` with `other` a hash or
+                    # b-tree collection declared in the function — an order-insensitive sink under the same key condition
+                    for lp in find_all(f.body, lambda n: n.get("k") == "for" and n.get("iter") is x):
+                        names = rx.pat_bindings(lp["pat"])
+                        stmts = [s_ for s_ in rx.stmts_of(lp["body"]) if s_.get("k") != "item"]
+                        sinks = {}
+                        for lt in find_all(f.body, lambda n: n.get("k") == "let" and n["pat"].get("k") in ("ident", "typed")):
+                            pt_ = lt["pat"]
+                            ty_ = norm_ty(pt_.get("ty") or "") if pt_["k"] == "typed" else ""
+                            nm_ = (pt_["pat"] if pt_["k"] == "typed" else pt_).get("name")
+                            init_ = src(lt["init"]) if lt.get("init") is not None else ""
+                            if re.search(r"(Hash|BTree)(Map|Set)", ty_) or re.match(r"(std::collections::)?(Hash|BTree)(Map|Set)(::<[^>]*>)?::(new|with_capacity|default)\(", init_):
+                                sinks[nm_] = True
+                        good = bool(stmts)
+                        for s_ in stmts:
+                            e_ = rx.peel(s_["e"]) if s_.get("k") == "expr" else None
+                            if not (e_ is not None and e_.get("k") == "mcall" and e_["m"] == "insert" and rx.var_name(e_["recv"]) in sinks and e_["args"]):
+                                good = False
+                                break
+                            kv = rx.var_name(rx.peel(e_["args"][0]))
+                            if not (kv is not None and kv in names):
+                                good = False
+                                det += "; the key inserted is `%s`, a function of the source entry: two entries can collide and the survivor depends on the iteration order" % src(e_["args"][0])[:60]
+                                break
+                        if good:
+                            ok = True
+                            det = "`for %s in %s { … }` — every statement of the body inserts the entry under its own key or value into %s, a hash/b-tree collection: the order of the iteration is forgotten" % (F.psrc(lp["pat"]), src(x)[:50], sorted(sinks))
             c.ob("C15.hash-order", fn, t.split("::")[-1] + " over a hash collection", ok, det + ("" if ok else " — the iteration order of a HashMap depends on a per-process random seed and would reach the output"), witness="compile the same expression in two processes" if ok is False else None)
     c.ob("C15.hash-order", "crate", "hash-iteration census", True, "%d iteration site(s) over hash collections" % nh, nontrivial=False)
     # definitions come from a Vec
